@@ -106,6 +106,17 @@ class Capture:
         self._saved = []
         self.buggify = {}  # site -> True
         self.buggify_hits = {}
+        self.current_rec = None  # record of the round whose optimize_* call is running
+        self.capture_first_model = False  # keep the matrix form of the first LP each round hands to the solver
+
+    def observe_solve(self, lp, idx):
+        rec = self.current_rec
+        if self.capture_first_model and rec is not None and "own_model" not in rec:
+            from . import lpsolve
+
+            _vs, c, c0, A_ub, b_ub, A_eq, b_eq, bounds = lpsolve.pulp_to_matrix(lp)
+            rec["own_model"] = {"c": c, "c0": float(c0 or 0.0), "A_ub": A_ub, "b_ub": b_ub, "A_eq": A_eq, "b_eq": b_eq,
+                                "bounds": bounds, "maximize": lp.sense == -1}
 
     def _wrap(self, owner, name, make):
         orig = owner.__dict__[name]
@@ -151,7 +162,11 @@ class Capture:
                         if a:
                             rec["min_human"] = {k: _food_kcals(v) for k, v in a[0].items()}
                             rec["min_human_units"] = {k: v.kcals_units for k, v in a[0].items()}
-                    out = orig(self, consts, time_consts, *a)
+                    cap.current_rec = rec
+                    try:
+                        out = orig(self, consts, time_consts, *a)
+                    finally:
+                        cap.current_rec = None
                     if rec is not None:
                         model, variables, _mc, pct = out
                         rec["vars"] = _var_values(variables)
@@ -417,6 +432,7 @@ class Sim:
         self.tables = world.TableReads(log=log)
         self.solver = world.SimSolver(solver_mode, rng.sub("vertex"), log=log, clock=self.clock)
         self.cap = Capture(fs=self.fs)
+        self.solver.observer = self.cap.observe_solve
         self.use_clock = use_clock
 
     def __enter__(self):
